@@ -422,6 +422,19 @@ func (f *Frame) extern(c *cursor, site ssa.Instruction, name string, sig *types.
 		e.warn("%s: external %s has no model: result unconstrained", f.fn.Name(), name)
 		return f.freshResults(sig, st, sanitize(name))
 	}
+	var cc *ssa.CallCommon
+	switch x := site.(type) {
+	case *ssa.Call:
+		cc = &x.Call
+	case *ssa.Defer:
+		cc = &x.Call
+	}
+	if cc != nil {
+		fams, all := e.P.unknownExternEffects(e.U, cc)
+		e.warn("%s: unmodelled library function %s: result unconstrained, arguments' memory havocked", f.fn.Name(), name)
+		e.havoc(st, fams, all)
+		return f.freshResults(sig, st, sanitize(name))
+	}
 	e.warn("%s: unknown external %s: everything havocked", f.fn.Name(), name)
 	e.havoc(st, nil, true)
 	return f.freshResults(sig, st, sanitize(name))
